@@ -312,6 +312,38 @@ def check_program(prog, B, LogRepFloat, viol, counts):
             ref = max(abs(want), xv, p) if opn in ("add", "radd", "sub", "rsub") else abs(want)
             if math.isnan(got) or not abs(got - want) <= max(1e-11 * (nops + 2), 4 * tol) * max(ref, 1e-300):
                 viol.append((f"C20:mixed:{opn}:value", f"{desc}: r{r} {opn} {p!r} = {got!r}, exact {want!r}", rp))
+        if p > 0:
+            # the negative of the plain number: every result follows from the exported ones by a sign rule
+            # (x + (-p) = x - p, x - (-p) = x + p, (-p) - x = -(x + p), x * (-p) = -(x * p), ...); a weight is
+            # non-negative (ValuesCanonical), so it compares above every negative number
+            q = -p
+            for opn, fn, src, sgn in (("add", lambda: x + q, "sub", 1), ("radd", lambda: q + x, "sub", 1), ("sub", lambda: x - q, "add", 1),
+                                      ("rsub", lambda: q - x, "add", -1), ("mul", lambda: x * q, "mul", -1), ("rmul", lambda: q * x, "mul", -1),
+                                      ("div", lambda: x / q, "div", -1), ("rdiv", lambda: q / x, "rdiv", -1)):
+                sv = m[src]
+                if not sv:
+                    continue
+                wl = exp_log(sv[1:], B) if sv[0] else -math.inf
+                if sv[0] and abs(wl) > 690:
+                    continue
+                want = sgn * (sv[0] * math.exp(wl) if sv[0] else 0.0)
+                counts["mixed"] += 1
+                try:
+                    got = float(fn())
+                except Exception as e:  # noqa: BLE001
+                    viol.append((f"C20:mixed-negative:{opn}:exception:{type(e).__name__}", f"{desc}: r{r} {opn} {q!r} raised {type(e).__name__}: {e}", rp))
+                    continue
+                ref = max(abs(want), xv, p) if opn in ("add", "radd", "sub", "rsub") else abs(want)
+                if math.isnan(got) or not abs(got - want) <= max(1e-11 * (nops + 2), 4 * tol) * max(ref, 1e-300):
+                    viol.append((f"C20:mixed-negative:{opn}:value", f"{desc}: r{r} {opn} {q!r} = {got!r}, exact {want!r}", rp))
+            counts["comparisons"] += 1
+            try:
+                got = (x < q, x <= q, x > q, x >= q, x == q, x != q, q < x, q <= x, q > x, q >= x, q == x, q != x)
+            except Exception as e:  # noqa: BLE001
+                got = f"raised {type(e).__name__}: {e}"
+            if got != (False, False, True, True, False, True, True, True, False, False, False, True):
+                viol.append(("C20:compare-plain:negative", f"{desc}: comparisons of r{r} (a non-negative weight) with {q!r} "
+                             f"(x<q, x<=q, x>q, x>=q, x==q, x!=q, q<x, q<=x, q>x, q>=x, q==x, q!=x) = {got}", rp))
         if m["cmp"] and (prog["regs"][r - 1][0] == 0 or p == 0.0 or abs(vals[r] - math.log(p)) > 4 * tol):
             c3 = m["cmp"][0]
             counts["comparisons"] += 1
@@ -539,14 +571,19 @@ def numeric_checks(tier, seed):
     gaps = [g for g in grid if g <= 1e4]
     if tier == "quick":
         gaps = gaps[::2]
-    for v in bases:
-        for g in gaps:
-            w = v + g  # the float actually used; the oracle sees the same two floats
+    pairs = [(v + g, v) for v in bases for g in gaps]
+    # a moderate weight next to one that is smaller by an astronomic factor (the larger argument decides the scale)
+    for hi in (0.0, 0.3, -2.5, 5.0, 1e-300, 700.0, -700.0, 1e5, -1e5, 1e308):
+        for lo in (-1e3, -1e5, -1e10, -1e15, -1e100, -1e300, -1.7e308):
+            if lo < hi:
+                pairs.append((hi, lo))
+    if True:
+        for w, v in pairs:
             if math.isinf(w):
                 continue
             n += 1
             rp = {"fn": "pair", "args": [w, v]}
-            scale = max(1.0, abs(v), abs(w))
+            scale = max(1.0, abs(w))  # w >= v: the larger log-value decides the magnitude of every result
             reg = region(w - v) if w != v else "equal"
             # sums (both argument orders, function and operators)
             ex = ora_log_sum_exp(w, v)
@@ -582,15 +619,16 @@ def numeric_checks(tier, seed):
             x, y = LogRepFloat(log_val=w), LogRepFloat(log_val=v)
             if math.isfinite(w + v):
                 got = _lv(_safe(lambda: x * y), LogRepFloat)
-                if not abs(got - (w + v)) <= 4 * EPS * scale:
+                if not abs(got - (w + v)) <= 4 * EPS * max(scale, abs(v)):
                     report(f"C20:mul:{_mc(v)}", f"log-value of the product of weights with log-values {w!r}, {v!r} is {got!r}, exact {w + v!r}", rp)
-            got = _lv(_safe(lambda: x / y), LogRepFloat)
-            if not abs(got - (w - v)) <= 4 * EPS * scale:
+            got = _lv(_safe(lambda: x / y), LogRepFloat) if math.isfinite(w - v) else w - v
+            if math.isfinite(w - v) and not abs(got - (w - v)) <= 4 * EPS * max(scale, abs(v)):
                 report(f"C20:div:{_mc(v)}", f"log-value of the ratio of weights with log-values {w!r}, {v!r} is {got!r}, exact {w - v!r}", rp)
             c3 = (w > v) - (w < v)
             got = _safe(lambda: ((x > y), (x >= y), (x < y), (x <= y), (x == y), (x != y)))
             if got != (c3 > 0, c3 >= 0, c3 < 0, c3 <= 0, c3 == 0, c3 != 0):
                 report(f"C20:compare:pair:{_mc(v)}", f"comparisons (>, >=, <, <=, ==, !=) of weights with log-values {w!r}, {v!r} give {got!r}", rp)
+    for v in bases:
         # zero weights
         z, y = LogRepFloat(0.0), LogRepFloat(log_val=v)
         n += 1
